@@ -13,18 +13,29 @@ package slug
 //@   ensures C04.lexical.segment: ok && len(p.allowSymlinkTargets) == 0 ==>
 //@       segUnder(ite(isAbs(target), Clean(target), Join(Dir(ite(isAbs(path), path, Join(Abs(root), path))), target)), Abs(root))
 //@   ensures C04,C12.illegal: !ok ==> err != nil
+//@   ensures C12.ok-no-error: ok ==> err == nil
+//@   ensures C12.illegal-typed: !ok ==> dyntype(err, "*slug.IllegalSlugError") || AbsErr(root)
+//@   sets $rejected = $rejected || !ok
 //@   ensures C03,C05.notskip: err != filepath.SkipDir
 //@   ensures C04.physical: ok && len(p.allowSymlinkTargets) == 0 && !isAbs(target) ==> dotdotOnlyLeading(target)
 //@   guide g: isPlainAbs(root) && isPlainRel(path) && (isDotDotRel(target) || isPlainAbs(target))
 
 //@ func (*Packer).Unpack -> (err)
 //@   opt propagate-errors
+//@   tolerates tar.Reader.Next#1: _err == io.EOF
+//@   tolerates os.Create#1: isPermission(_err)
+//@   tolerates os.Chmod#1: true
+//@   tolerates os.File.Close#1: true
 //@   sweep
 //@   replay validSymlink: root=dst, path=header.Name, target=header.Linkname, nallow=len(p.allowSymlinkTargets)
 //@   guide g1: isPlainAbs(dst) && len(dst) <= 6 && isPlainAbs(header.Name) && len(header.Name) <= 6 && isDotDotRel(header.Linkname) && len(header.Linkname) <= 16
 //@   guide g2: isPlainAbs(dst) && len(dst) <= 6 && isPlainRel(header.Name) && len(header.Name) <= 6 && (isDotDotRel(header.Linkname) || isPlainAbs(header.Linkname)) && len(header.Linkname) <= 16
 //@   requires pre.p: p != nil
 //@   ghost $eof Bool = false
+//@   ghost $rejected Bool = false
+//@   invariant loop1 C12.unpack.rejected.inv: !$rejected
+//@   invariant loop2 C12.unpack.rejected.inv2: !$rejected
+//@   ensures C12.unpack.illegal-slug: $rejected && !AbsErr(dst) ==> dyntype(err, "*slug.IllegalSlugError")
 //@   frame C01.frame: segUnder(Clean(_p), Clean(dst)) || Clean(_p) == Dir(Clean(dst))
 //@   slice-invariant directoriesExtracted C01.dirs: segUnder(Clean(_e.Path), Clean(dst))
 //@   at-call os.Symlink C04.guarded: len(p.allowSymlinkTargets) == 0 ==>
@@ -51,6 +62,7 @@ package slug
 
 //@ func (*Packer).packWalkFn$1 -> (rerr)
 //@   opt propagate-errors
+//@   tolerates go-slug.Packer.validSymlink#1: p.dereference
 //@   sweep
 //@   ghost $tarN Int
 //@   ghost $tarBody Int
